@@ -6,10 +6,13 @@ package main
 import (
 	"fmt"
 	"go/types"
+	"os"
 	"sort"
 
 	"golang.org/x/tools/go/ssa"
 )
+
+var schedDebug = os.Getenv("GOSYM_SCHED_DEBUG") != ""
 
 type gState int
 
@@ -35,6 +38,7 @@ type Goroutine struct {
 	blockedOn string
 	recvOn    []*Chan
 	isMain    bool
+	everSlept bool
 }
 
 type timerEnt struct {
@@ -240,6 +244,13 @@ func (s *Sched) pickNext(fr *Frame, curRunnable bool) {
 			}
 		}
 		nonIdle := len(cands) > 0
+		if schedDebug {
+			st := ""
+			for _, g := range s.gs {
+				st += fmt.Sprintf(" [%d %s st=%d sl=%v q=%v on=%s]", g.id, g.name, g.state, g.sleeping, g.quiescing, g.blockedOn)
+			}
+			fmt.Fprintf(os.Stderr, "pick: cur=%d runnable=%v cands=%d sleepers=%d idleTicks=%d pre=%d%s\n", cur.id, curRunnable, len(cands), len(sleepers), s.idleTicks, s.preemptions, st)
+		}
 		if !nonIdle {
 			// nothing can run: quiescence handling / time advance / deadlock
 			var q *Goroutine
@@ -289,14 +300,15 @@ func (s *Sched) pickNext(fr *Frame, curRunnable bool) {
 		canPreempt := !curRunnable || s.preemptions < in.cfg.Preemptions
 		var choice *Goroutine
 		advance := false
-		if len(cands) == 1 && (!canPreempt || (len(sleepers) == 0 && pendingTimers == 0) || !in.cfg.TimerPreempt) {
+		if len(cands) == 1 && (!canPreempt || (len(sleepers) == 0 && pendingTimers == 0) || !in.cfg.TimerPreempt || s.preemptions >= in.cfg.Preemptions) {
 			choice = cands[0]
 		} else if curRunnable && !canPreempt {
 			choice = cur
 		} else {
 			n := len(cands)
 			extra := 0
-			if in.cfg.TimerPreempt && (len(sleepers) > 0 || pendingTimers > 0) {
+			// letting time pass while something could run delays that goroutine: it always costs a preemption
+			if in.cfg.TimerPreempt && (len(sleepers) > 0 || pendingTimers > 0) && s.preemptions < in.cfg.Preemptions {
 				extra = 1
 			}
 			c := in.path.choose(in, DSched, n+extra, fr)
@@ -307,9 +319,7 @@ func (s *Sched) pickNext(fr *Frame, curRunnable bool) {
 			}
 		}
 		if advance {
-			if curRunnable {
-				s.preemptions++
-			}
+			s.preemptions++
 			s.advanceClock(sleepers)
 			// after advancing, loop to choose again (the woken sleeper is now enabled)
 			continue
@@ -317,10 +327,11 @@ func (s *Sched) pickNext(fr *Frame, curRunnable bool) {
 		if choice != cur && curRunnable {
 			s.preemptions++
 		}
-		if !choice.sleeping && !choice.quiescing {
+		if !choice.isDaemonLike() && !choice.quiescing {
+			// real (non timer-driven) activity restarts the idle count
 			s.idleTicks = 0
 			for _, g := range s.gs {
-				if g.quiescing && !choice.isDaemonLike() {
+				if g.quiescing {
 					g.idleHave = 0
 				}
 			}
@@ -330,7 +341,8 @@ func (s *Sched) pickNext(fr *Frame, curRunnable bool) {
 	}
 }
 
-func (g *Goroutine) isDaemonLike() bool { return g.sleeping }
+// a goroutine that has slept at least once is timer-driven (heart-beat style)
+func (g *Goroutine) isDaemonLike() bool { return g.sleeping || g.everSlept }
 
 func (s *Sched) advanceClock(sleepers []*Goroutine) {
 	var next int64 = -1
@@ -374,6 +386,9 @@ func (s *Sched) switchTo(g *Goroutine) {
 	}
 	s.switches++
 	s.schedule = append(s.schedule, g.id)
+	if schedDebug {
+		fmt.Fprintf(os.Stderr, "sched: %d(%s) -> %d(%s) clock=%d steps=%d\n", cur.id, cur.name, g.id, g.name, s.clock, s.in.steps)
+	}
 	s.cur = g
 	savedDepth := s.in.depth
 	g.wake <- struct{}{}
@@ -418,6 +433,7 @@ func (s *Sched) sleep(fr *Frame, d int64) {
 		return
 	}
 	g.sleeping = true
+	g.everSlept = true
 	g.wakeAt = s.clock + d
 	g.state = gBlocked
 	g.blockedOn = "sleep"
